@@ -88,9 +88,16 @@ fn entry_points(acc: &mut Acc, q: &str, doc: &Value, am: &AddrMap) {
     }
 }
 
+fn docs_extra_queries(qs: &mut Vec<String>) {
+    for q in ["$['a b']", "$['a  b']", "$[\"a b\"]", "$[' ']", "$['  ']", "$[?@=='a b']", "$[?@=='a  b']", "$..[?@.k=='x y']", "$..[?@.k=='x  y']", "$['a\tb']"] {
+        qs.push(q.to_string());
+    }
+}
+
 fn part_entry_points(thorough: bool) -> Acc {
     let mut docs = crate::checks::lang::eval_panel();
     docs.extend(crate::gen::docs::panel());
+    docs.push(json!({"a b": 1, "a  b": 2, " ": 4, "  ": 5, "s": "a  b", "t": "a b", "arr": [{"k": "x y"}, {"k": "x  y"}]}));
     let docs: Vec<(Value, AddrMap)> = docs
         .into_iter()
         .map(|d| {
@@ -99,6 +106,8 @@ fn part_entry_points(thorough: bool) -> Acc {
         })
         .collect();
     let mut qs: Vec<String> = sentences::sentences(thorough).iter().map(render::query).collect();
+    // queries that differ only in a blank run inside a string (anything keyed on normalised query text collides)
+    docs_extra_queries(&mut qs);
     // some invalid strings too
     qs.extend(["$[", "$.", "$[?@.a==]", "$[?length(@.*)>1]", "", "$$", "@", "$[01]"].iter().map(|s| s.to_string()));
     qs.par_iter()
